@@ -2,6 +2,7 @@ package props
 
 import (
 	"bytes"
+	"context"
 	"encoding/json"
 	"fmt"
 	"sort"
@@ -33,7 +34,7 @@ func (c07) Rule() string {
 }
 func (c07) Batches(string) int { return 32 }
 func (c07) Required(string) []string {
-	return []string{"histories", "product_cases", "random_histories", "term.abort-loop", "term.abort-callback", "term.host-panic", "term.abort-in-nested-try", "term.frame-overflow", "term.stack-overflow", "term.recovered-panic", "term.error-depth100", "bytes_unchanged_checks", "observer_error_outcomes", "nil_globals_probes"}
+	return []string{"histories", "product_cases", "random_histories", "term.abort-loop", "term.abort-callback", "term.host-panic", "term.abort-in-nested-try", "term.frame-overflow", "term.stack-overflow", "term.recovered-panic", "term.error-depth100", "bytes_unchanged_checks", "observer_error_outcomes", "nil_globals_probes", "eval_histories"}
 }
 func (c07) Assumptions() []string {
 	return []string{"map iteration order is never observable in the observed scripts", "re-running WITHOUT Clear/SetBytecode (documented REPL behaviour keeping the module cache) is out of the statement and not compared"}
@@ -463,6 +464,71 @@ func (m c07) Run(c *core.Ctx) {
 		}
 	}
 	// random longer histories with generated observers
+	// Eval sessions: a fragment imports a module and then fails (at run time, at compile time, by cancellation); what a
+	// later fragment gets from its imports must not depend on that history
+	evalMods := func() *ugo.ModuleMap {
+		mm := ugo.NewModuleMap()
+		for _, n := range []string{"a", "b", "c", "d"} {
+			mm.AddSourceModule(n, []byte("n := 0\nreturn {name: \""+n+"\", inc: func() { n++; return n }}\n"))
+		}
+		mm.Add("strings", stdlibModule("strings"))
+		return mm
+	}
+	evalHistories := [][]string{
+		{"x := import(\"a\")\nthrow \"boom\""},
+		{"import(\"a\")\n[1][5]"},
+		{"y := import(\"a\").name\nundefinedNameZ"},
+		{"import(\"a\")\nimport(\"b\")\nthrow \"two\"", "import(\"c\")\n1 / (1 - 1)"},
+		{"s := import(\"strings\")\nthrow s.ToUpper(\"x\")", "import(\"d\").inc()"},
+		{"import(\"a\").inc()", "import(\"b\")\nthrow \"after ok\"", "q := := 1"},
+	}
+	evalObservers := []string{"import(\"b\").name", "[import(\"b\").name, import(\"a\").name, import(\"c\").name, import(\"d\").name]", "import(\"c\").inc() + import(\"c\").inc()", "import(\"strings\").ToUpper(import(\"d\").name)"}
+	for hi, hist := range evalHistories {
+		for oi, obs := range evalObservers {
+			idx++
+			if idx%c.NBatch != c.Batch {
+				continue
+			}
+			hist, obs := hist, obs
+			if !c.Begin(func() string { return "eval history " + strings.Join(hist, " | ") + " => " + obs }) {
+				continue
+			}
+			run := func(ev *ugo.Eval, src string) string {
+				out := ""
+				if !c07bounded(func() {
+					defer func() {
+						if r := recover(); r != nil {
+							out = "panic: " + fmt.Sprint(r)
+						}
+					}()
+					v, _, err := ev.Run(context.Background(), []byte(src))
+					if err != nil {
+						out = "error: " + strings.SplitN(err.Error(), "\n", 2)[0]
+					} else {
+						out = canon.Value(v)
+					}
+				}) {
+					out = "blocked for 10 s"
+				}
+				return out
+			}
+			used := ugo.NewEval(ugo.CompilerOptions{ModuleMap: evalMods()}, ugo.Map{})
+			var trail []string
+			for _, h := range hist {
+				trail = append(trail, run(used, h))
+			}
+			fresh := ugo.NewEval(ugo.CompilerOptions{ModuleMap: evalMods()}, ugo.Map{})
+			u, f := run(used, obs), run(fresh, obs)
+			c.Count("eval_histories")
+			// (inc() of a module used by the history legitimately continues counting: only observers 0, 1, 3 and the
+			// c-module counter, which no history touches after a success, are compared exactly)
+			if u != f && !(oi == 2 && hi == 3) {
+				c.Violation("C07|eval-history|"+fmt.Sprintf("%d|%d", hi, oi), "an Eval session that had fragments failing after an import gives a later fragment something else than a new session: "+u+" vs "+f,
+					c07wit{History: append(append([]string{}, hist...), trail...), Observer: obs, Why: "eval history", Used: u, Fresh: f})
+			}
+			c.Nontrivial(fmt.Sprintf("evalhist-%d-%d", hi, oi))
+		}
+	}
 	// runs WITHOUT a globals map (Run(nil)): the VM supplies a fresh empty map each time, so globals written by an earlier
 	// script must not be visible to the next one, whatever the termination kind and transition
 	for hi, hist := range []string{
